@@ -686,7 +686,20 @@ func finish(a *Agg, known *Known, root string, wall time.Duration) int {
 	}
 	// violations
 	exit := 0
-	if len(a.Violations) > 0 {
+	if rec := os.Getenv("VERIF_RECORD"); rec != "" && len(a.Violations) > 0 {
+		// maintenance mode (tools/record_atoms.py; never used by a registered command): dump every unlisted violation
+		f, _ := os.Create(rec)
+		w := bufio.NewWriter(f)
+		for _, v := range a.Violations {
+			b, _ := json.Marshal(map[string]string{"key": v.Key, "kind": v.Kind, "detail": short(v.Detail, 400)})
+			w.Write(b)
+			w.WriteByte('\n')
+		}
+		w.Flush()
+		f.Close()
+		fmt.Printf("%d unlisted violations dumped to %s\n", len(a.Violations), rec)
+		exit = 1
+	} else if len(a.Violations) > 0 {
 		exit = 1
 		dir := filepath.Join(root, "replays", c.ID)
 		os.MkdirAll(dir, 0o755)
